@@ -1,16 +1,16 @@
 #!/bin/bash
-# usage: tools/seedtest.sh <seed dir with patch.diff> <PROP>...   -> runs ./check PROP (quick) with the patch applied to /repo
-# holds /verif/.work/repo.lock for apply -> checks -> revert.  Appends one line per property to <seed dir>/result.txt
+# usage: tools/seedtest.sh <seed dir with patch.diff> <PROP>...
+# applies the patch to a PRIVATE clone of /repo (HEAD) and runs ./check PROP against it (BITS_REPO); /repo is untouched.
 cd /verif
 d=$(realpath "$1"); shift
-exec 8>.work/repo.lock; flock 8
-if ! git -C /repo diff --quiet; then echo "REPO DIRTY before seed test: $(git -C /repo status --short | tr '\n' ' ')"; exit 2; fi
-if ! git -C /repo apply "$d/patch.diff"; then echo "patch does not apply: $d"; exit 2; fi
+clone=$(mktemp -d /tmp/seedrepo_XXXXXX)
+git clone -q /repo "$clone" || exit 2
+if ! git -C "$clone" apply "$d/patch.diff"; then echo "patch does not apply: $d"; rm -rf "$clone"; exit 2; fi
 for p in "$@"; do
-  out=$(timeout 3000 ./check "$p" --tier "${TIER:-quick}" 2>&1); rc=$?
+  out=$(BITS_REPO="$clone" timeout 3000 ./check "$p" --tier "${TIER:-quick}" 2>&1); rc=$?
   v=$(echo "$out" | grep -c '^VIOLATION')
   nf=$(echo "$out" | grep '^VIOLATION' | grep -vc 'no-failing-input-found')
   echo "$(date +%H:%M) $p rc=$rc violations=$v with_input=$nf :: $(echo "$out" | tail -1)" | tee -a "$d/result.txt"
   mkdir -p "$d/replays"; for f in replays/$p-*.json; do [ -f "$f" ] && cp "$f" "$d/replays/" ; done
 done
-git -C /repo checkout -- . 
+rm -rf "$clone"
